@@ -157,6 +157,9 @@ func c08RunOne(dir, comp, name string, data []byte) (out Sx, aux []byte, meas ui
 			aux = ssh1.VerifDecryptEmptyPassphrase(ct)
 		}
 	}
+	if comp == "pgptyped" || comp == "pgpread" {
+		aux = c08PGPOracle(data)
+	}
 	return out, aux, b.TotalAlloc - a.TotalAlloc, dt.Microseconds(), cpu
 }
 
@@ -223,12 +226,49 @@ func c08Call(comp string, data []byte, f *os.File) func() Sx {
 			return SL{l, Bool(final != io.EOF)}
 		}
 	case "pgpread":
-		_, err := openpgp.ReadEntity(packet.NewReader(bytes.NewReader(data)))
+		e, err := openpgp.ReadEntity(packet.NewReader(bytes.NewReader(data)))
 		return func() Sx {
 			if err != nil {
 				return ObsErr()
 			}
-			return ObsOk(SL{})
+			return ObsOk(SL{I(len(e.Subkeys))})
+		}
+	case "pgptyped":
+		// what ReadEntity drives: packet.Reader.Next until it reports an error
+		rd := packet.NewReader(bytes.NewReader(data))
+		var ps []packet.Packet
+		var final error
+		for {
+			p, err := rd.Next()
+			if err != nil {
+				final = err
+				break
+			}
+			ps = append(ps, p)
+		}
+		return func() Sx {
+			l := SL{}
+			for _, p := range ps {
+				switch t := p.(type) {
+				case *packet.Signature:
+					l = append(l, SL{I(1), I(int(t.SigType))})
+				case *packet.SignatureV3:
+					l = append(l, SL{I(2), I(int(t.SigType))})
+				case *packet.PublicKey:
+					l = append(l, SL{I(3), I(int(t.PubKeyAlgo)), Bool(t.IsSubkey)})
+				case *packet.PublicKeyV3:
+					l = append(l, SL{I(4), I(int(t.PubKeyAlgo)), Bool(t.IsSubkey)})
+				case *packet.PrivateKey:
+					l = append(l, SL{I(5), I(int(t.PubKeyAlgo)), Bool(t.IsSubkey)})
+				case *packet.UserId:
+					l = append(l, SL{I(6), I(len(t.Id))})
+				case *packet.UserAttribute:
+					l = append(l, SL{I(7), I(len(t.Contents))})
+				default:
+					l = append(l, SL{I(99)})
+				}
+			}
+			return SL{l, Bool(final != io.EOF)}
 		}
 	case "armor":
 		blk, err := armor.Decode(bytes.NewReader(data))
@@ -448,11 +488,16 @@ func (r rawSx) String() string { return string(r) }
 
 // components with an instrumented model (functional observation compared exactly)
 var c08Modelled = map[string]bool{"readall": true, "ssh1": true, "pgplen": true, "pgpmpi": true, "pgpopaque": true,
-	"der": true, "b64": true, "jks": true, "rpm": true}
+	"der": true, "b64": true, "jks": true, "rpm": true, "armor": true, "pgptyped": true, "pgpread": true}
 
 const c08ModelMax = 40 << 10 // larger inputs are checked against K*n+C and the time limit only
 
 func genC08(c *Ctx) {
+	if os.Getenv("C08_ONLY") == "giant" { // development aid
+		c08GenGiant(c)
+		return
+	}
+	only := os.Getenv("C08_ONLY")
 	var cases []c08Case
 	add := func(comp, tag, name string, data []byte) {
 		cases = append(cases, c08Case{comp: comp, tag: tag, name: name, data: data})
@@ -460,16 +505,24 @@ func genC08(c *Ctx) {
 	addBig := func(comp, tag, name string, r *c08Recipe) {
 		cases = append(cases, c08Case{comp: comp, tag: tag, name: name, recipe: r})
 	}
-	c08Corpus(c, add, addBig)
-	c08GenSSH1(c, add)
-	c08GenPGP(c, add)
-	c08GenDER(c, add)
-	c08GenB64(c, add)
-	c08GenJKS(c, add)
-	c08GenRPM(c, add)
-	c08GenSSHWire(c, add)
-	c08GenInspect(c, add, addBig)
-	c08GenCompressed(c, add)
+	if only == "pgp" { // development aid
+		c08GenPGP(c, add)
+		c08GenPGPTyped(c, add)
+		c08GenArmor(c, add)
+	} else {
+		c08Corpus(c, add, addBig)
+		c08GenSSH1(c, add)
+		c08GenPGP(c, add)
+		c08GenPGPTyped(c, add)
+		c08GenArmor(c, add)
+		c08GenDER(c, add)
+		c08GenB64(c, add)
+		c08GenJKS(c, add)
+		c08GenRPM(c, add)
+		c08GenSSHWire(c, add)
+		c08GenInspect(c, add, addBig)
+		c08GenCompressed(c, add)
+	}
 
 	res := c08RunIsolated(c, cases)
 	// A CPU time just above the limit may be noise of a loaded machine: measure again (fresh
@@ -509,6 +562,9 @@ func genC08(c *Ctx) {
 			n = len(cs.data)
 		}
 		modelled := c08Modelled[cs.comp] && cs.recipe == nil && n <= c08ModelMax && !(cs.comp == "jks" && jksReachesSecretKey(cs.data))
+		if (cs.comp == "pgptyped" || cs.comp == "pgpread") && (len(r.aux) == 0 || r.aux[0] == 0xFF) {
+			modelled = false // a packet type or key algorithm outside the model was met
+		}
 		if modelled && r.status == 0 {
 			// emitted after all alloc cases: whether a worker survives a multi-gigabyte request is a
 			// race with the watchdog, and the ids of the alloc cases must not depend on it (replay)
@@ -525,10 +581,17 @@ func genC08(c *Ctx) {
 	fmt.Fprintf(os.Stderr, "C08 isolated cases=%d; max wall per case %.3fs (%s); max thread CPU per case %.3fs (%s); limit 5 s CPU\n",
 		len(cases), float64(maxUs)/1e6, maxTag, float64(maxCpu)/1e6, maxCpuTag)
 	fmt.Fprintf(os.Stderr, "C08 largest thread CPU below the limit: %.3fs (%s)\n", float64(maxOkCpu)/1e6, maxOkCpuTag)
-	c08Streams(c)
+	if only == "" {
+		c08Streams(c)
+	}
 	for _, f := range functional {
 		f()
 	}
+	if only != "" {
+		return
+	}
+	// last, so that the ids of all cases above do not depend on where a giant-field shape stops
+	c08GenGiant(c)
 }
 
 // ---------------------------------------------------------------------------------------
@@ -637,6 +700,19 @@ func c08Corpus(c *Ctx, add func(comp, tag, name string, data []byte), addBig fun
 		suffix: []byte("\n\nAAAA\n-----END PGP PUBLIC KEY BLOCK-----\n")})
 	// C08-S1: one 64 KiB signature packet of nested embedded signatures (every level copies its hashed area)
 	add("pgpread", "corpus-S1-nested-embedded-sigs", "", pgpNestedSigs(65000))
+	// C08-O1: one OBJECT IDENTIFIER arc of 256 KiB (oidString shifted an accumulator per octet: quadratic)
+	addBig("inspect", "corpus-O1-oid-huge-arc-256k", "d.der", derForest([]*dn{{id: []byte{0x06}, fill: fillRep("\x2A\xFF", "\xFF", "\x7F")}}, 256<<10))
+	// C08-D1: DSA primary key with parameters as long as MPIs can be and a self-signature whose hash
+	// prefix matches (55 KiB: 129 s); an ordinary subgroup order, a modulus of 65535 bits and 230 valid
+	// self-signatures (64 KiB: 276 s)
+	addBig("inspect", "corpus-D1-dsa-giant-parameters", "k.asc", pgpGiantDSA(64<<10, true).armor("PGP PUBLIC KEY BLOCK"))
+	{
+		kp, up, sp := pgpSignedDSAKey(8191 - 256)
+		addBig("inspect", "corpus-D1-dsa-giant-modulus-valid-signatures", "k.asc",
+			rcp(append(append([]byte{}, kp...), up...), sp, (48<<10-len(kp)-len(up))/len(sp), nil).armor("PGP PUBLIC KEY BLOCK"))
+	}
+	// C08-Z1: a key block followed by three-octet compressed data packets (a DEFLATE decompressor each)
+	addBig("inspect", "corpus-Z1-many-compressed-packets", "k.asc", rcp(rawPGPKey(nil), []byte{0xC8, 1, 1}, 2000, nil).armor("PGP PUBLIC KEY BLOCK"))
 	add("armor", "corpus-A1-longheader-64k", "k.asc", []byte("-----BEGIN PGP PUBLIC KEY BLOCK-----\nVersion: "+strings.Repeat("x", 1<<16)+"\n\nAAAA\n-----END PGP PUBLIC KEY BLOCK-----\n"))
 }
 
@@ -1707,6 +1783,30 @@ func c08GenSSHWire(c *Ctx, add func(comp, tag, name string, data []byte)) {
 			for _, v := range c08Vals(f) {
 				w := pem.EncodeToMemory(&pem.Block{Type: blk.Type, Bytes: setBE(blk.Bytes, f, v)})
 				add("inspect", fmt.Sprintf("openssh-len-%s-%s@%d=%s", short, f.what, f.off, valName(v)), short, w)
+			}
+		}
+	}
+	// PuTTY: the numeric headers of an encrypted file (Argon2 cost parameters) are count/size fields
+	for _, fx := range []string{"putty/ecdsa-enc-argon2i.ppk", "putty/ecdsa-enc-argon2d.ppk", "putty/ecdsa-enc-defaults.ppk"} {
+		src := string(fixture(fx))
+		short := strings.TrimSuffix(strings.TrimPrefix(fx, "putty/"), ".ppk")
+		lines := strings.Split(src, "\n")
+		for li, l := range lines {
+			for _, key := range []string{"Argon2-Memory: ", "Argon2-Passes: ", "Argon2-Parallelism: "} {
+				if !strings.HasPrefix(l, key) {
+					continue
+				}
+				cr := ""
+				if strings.HasSuffix(l, "\r") {
+					cr = "\r"
+				}
+				n, _ := strconv.Atoi(strings.TrimSpace(strings.TrimPrefix(l, key)))
+				for _, v := range []string{"0", "-1", "1", "65535", "65536", "65537", "2147483647", "2147483648", "4294967295", "4294967296", "-2147483648", "-2147483647",
+					"-4294967295", "9223372036854775807", "-9223372036854775808", strconv.Itoa(n + 1), strconv.Itoa(n - 1), strconv.Itoa(-n), "", "x", "1e9"} {
+					out := append([]string{}, lines...)
+					out[li] = key + v + cr
+					add("inspect", fmt.Sprintf("ppk-kdf-%s-%s=%s", short, strings.TrimSuffix(key, ": "), v), short+".ppk", []byte(strings.Join(out, "\n")))
+				}
 			}
 		}
 	}
